@@ -201,6 +201,14 @@ def run_case(spec, ctx):
                            abs(m2.theta - m.theta) <= 1e-9 * max(1, abs(m.theta))),
                           'fit.row-order-invariant', 'C10:%s-row-order-dependence' % fam,
                           lambda: dict(w, a=[m.tau, m.theta], b=[getattr(m2, 'tau', None), getattr(m2, 'theta', None)]))
+            # a sample whose tau differs in the 5th decimal only (two neighbouring values of one column swapped) is
+            # calibrated to ITS tau: nothing may be shared between fits of nearly equal data
+            if spec['kind'] in ('gauss', 'family', 'independent', 'permuted') and len(X) >= 20:
+                X2 = np.array(X, dtype=float, order='C')
+                order = np.argsort(X2[:, 1], kind='stable')
+                a, b = order[len(X2) // 2], order[len(X2) // 2 + 1]
+                X2[a, 1], X2[b, 1] = X2[b, 1], X2[a, 1]
+                judge_fit(ctx, fam, X2, dict(w, twin_of_previous_sample=True))
             # the fitted model must be usable (not "silently invalid"); judged only inside the
             # range the library supports numerically (|tau| <= 0.8, property C06): beyond it the
             # Frank CDF overflows (theta > 36), which C10 does not speak about
